@@ -607,8 +607,12 @@ class Harness:
             return FalsySleeper()
         if self.is_async and kind in ("async", "lambda", "callable"):
 
+            turns = int(self.sc.get("sleeper_turns", 1))
+
             async def asl(s):
-                await h.susp("sleeper")
+                # a sleeper that really suspends: `turns` trips through the scheduler before the sleep is over
+                for _ in range(turns):
+                    await h.susp("sleeper")
                 h.sleeper_body(place, s)
 
             if kind == "lambda":
